@@ -14,49 +14,8 @@ namespace Mqtt.FactsTie
 def agrees (g : Option Nat) (m : Nat) : Bool := match g with | none => true | some v => v == m
 def agreesL (g : Option (List Nat)) (m : List Nat) : Bool := match g with | none => true | some v => v == m
 
-/-- packet.go / publish.go / connect.go / subscribe.go constants (C05, C06) -/
-theorem packet_constants :
-    agrees Generated.packetConnect packetConnect ∧ agrees Generated.packetConnAck packetConnAck ∧
-    agrees Generated.packetPublish packetPublish ∧ agrees Generated.packetPubAck packetPubAck ∧
-    agrees Generated.packetPubRec packetPubRec ∧ agrees Generated.packetPubRel packetPubRel ∧
-    agrees Generated.packetPubComp packetPubComp ∧ agrees Generated.packetSubscribe packetSubscribe ∧
-    agrees Generated.packetSubAck packetSubAck ∧ agrees Generated.packetUnsubscribe packetUnsubscribe ∧
-    agrees Generated.packetUnsubAck packetUnsubAck ∧ agrees Generated.packetPingReq packetPingReq ∧
-    agrees Generated.packetPingResp packetPingResp ∧ agrees Generated.packetDisconnect packetDisconnect ∧
-    agrees Generated.packetFromClient packetFromClient := by decide
 
-theorem flag_constants :
-    agrees Generated.publishFlagRetain publishFlagRetain ∧ agrees Generated.publishFlagQoS1 publishFlagQoS1 ∧
-    agrees Generated.publishFlagQoS2 publishFlagQoS2 ∧ agrees Generated.publishFlagQoSMask publishFlagQoSMask ∧
-    agrees Generated.publishFlagDup publishFlagDup ∧
-    agrees Generated.connectFlagCleanSession connectFlagCleanSession ∧ agrees Generated.connectFlagWill connectFlagWill ∧
-    agrees Generated.connectFlagWillQoS1 connectFlagWillQoS1 ∧ agrees Generated.connectFlagWillQoS2 connectFlagWillQoS2 ∧
-    agrees Generated.connectFlagWillRetain connectFlagWillRetain ∧ agrees Generated.connectFlagPassword connectFlagPassword ∧
-    agrees Generated.connectFlagUserName connectFlagUserName ∧
-    agrees Generated.subscribeFlagQoS1 1 ∧ agrees Generated.subscribeFlagQoS2 2 ∧ agrees Generated.protocolLevel4 4 := by decide
-
-/-- packet.go `remainingLength`: thresholds and shifts (C05) -/
-theorem remaining_length_shape :
-    agreesL Generated.rlThresholds [rlMax1, rlMax2, rlMax3, rlMax4] ∧ agreesL Generated.rlShifts [7, 14, 21] := by decide
-
-/-- serve.go `readPacket`: the length loop stops at four bytes (C06): shift step 7, bound 21.
-    Tolerant of a rewrite that bounds the loop differently (`none`): the over-long length inputs of the
-    correspondence run decide that case with a concrete failing input. -/
-theorem read_length_bound :
-    agrees Generated.readLenShiftBound 21 ∧ agrees Generated.readLenShiftStep 7 := by decide
-
-/-- reconnclient.go back-off (C09): doubling, clamped, reset after a successful Connect -/
-theorem backoff_shape :
-    agrees Generated.reconnWaitFactor 2 ∧
-    agrees Generated.reconnWaitBaseDefault 1000000000 ∧ agrees Generated.reconnWaitMaxDefault 10000000000 := by decide
-
-theorem backoff_next_is_double_clamped (max w : Nat) : Backoff.next max w = min (2 * w) max := by
-  unfold Backoff.next; split <;> omega
-
-/-- servemux.go / serveasync.go / message.go (C20): handlers get `message.clone()`, ServeAsync
-    clones in the calling goroutine, clone allocates a fresh payload and copies every field -/
-theorem clone_discipline :
-    Generated.muxServesClone = true ∧ Generated.asyncServesCloneInCaller = true ∧ Generated.clonePayloadFresh = true ∧
-    (["Dup", "ID", "Payload", "QoS", "Retain", "Topic"].all (Generated.cloneCopiesAllFields.contains ·)) = true := by decide
+-- The theorems live in the per-property tie modules (Props/C05t, C06t, C09t, C20t, …): a fact that no longer
+-- matches must break the obligations of that property only.
 
 end Mqtt.FactsTie
